@@ -239,10 +239,10 @@ func cmdCheck(args []string) int {
 	violations := 0
 	var knownLines []string
 	var conf *confResult
-	needConf := len(failed) > 0 || len(resolution) > 0 || len(missing) > 0 || *tier == "thorough"
-	if needConf {
-		conf = runConformance(*repo, *verif, *prop, *tier, seed)
-	}
+	// The bounded replays run on every check: they are the stand-in for the functions of the
+	// property that are not under contract (labelled bounded in the evidence), supply failing
+	// inputs for failed obligations, and cross-check the engine.
+	conf = runConformance(*repo, *verif, *prop, *tier, seed)
 	knownSeen := map[string]bool{}
 	nKnownObl := 0
 	replayDir := filepath.Join(*verif, "replays")
@@ -320,26 +320,40 @@ func cmdCheck(args []string) int {
 			// engine proved something the real code violates: the check is broken, not the code.
 			attributed := false
 			for _, o := range failed {
-				if o.Fn == cfail.Fn {
-					attributed = true
+				if o.Fn == cfail.Fn && matchKnown(known.Findings, *prop, o.Name) == nil {
+					attributed = true // reported with that obligation
 				}
 			}
 			if attributed {
 				continue
 			}
-			if len(resolution) > 0 || len(missing) > 0 || len(degradedFn) > 0 {
-				violations++
-				exit = 1
-				os.MkdirAll(replayDir, 0o755)
-				rp := filepath.Join(replayDir, fileSafe(*prop+"-conf-"+cfail.Case)+".json")
-				b, _ := json.MarshalIndent(map[string]interface{}{"property": *prop, "failing_input": cfail, "replay_cmd": conf.cmd, "note": "found by bounded conformance after a contract-resolution failure"}, "", " ")
-				os.WriteFile(rp, b, 0o644)
-				fmt.Printf("VIOLATION property=%s replay=%s conformance=%s\n", *prop, rp, cfail.Case)
-			} else if len(failed) == 0 {
-				// every obligation of the property was discharged and still the real code violates a
-				// run-time contract: the engine (or a trusted contract) is wrong
-				broken = append(broken, fmt.Sprintf("engine cross-check: %s fails on the real code (%s) although every obligation of the property was discharged", cfail.Case, cfail.Detail))
+			// is the function the replay blames under contract for this property, with every
+			// obligation discharged and its contract still fitting its structure?
+			proved := false
+			for _, r := range results {
+				if r.Display == cfail.Fn && r.Err == "" && len(degradedFn[r.Display]) == 0 {
+					proved = true
+					for _, o := range failed {
+						if o.Fn == cfail.Fn {
+							proved = false
+						}
+					}
+				}
 			}
+			// not under contract (or the contract does not resolve any more): the bounded replay is
+			// the deciding check for this part of the property
+			note := "found by the bounded replay on the real code; the function it blames is not (or no longer) decided by a contract of this property"
+			if proved && len(resolution) == 0 && len(missing) == 0 {
+				note = "found by the bounded replay on the real code although every obligation of " + cfail.Fn + " was discharged: the defect lies in code of the chain that is not under contract (the replay can only name the nearest function under contract), or an assumed (trusted) contract does not hold"
+			}
+			violations++
+			exit = 1
+			os.MkdirAll(replayDir, 0o755)
+			rp := filepath.Join(replayDir, fileSafe(*prop+"-conf-"+cfail.Case)+".json")
+			b, _ := json.MarshalIndent(map[string]interface{}{"property": *prop, "failing_input": cfail, "replay_cmd": conf.cmd,
+				"note": note}, "", " ")
+			os.WriteFile(rp, b, 0o644)
+			fmt.Printf("VIOLATION property=%s replay=%s bounded-replay=%s fn=%s\n", *prop, rp, cfail.Case, cfail.Fn)
 		}
 	}
 	sort.Strings(knownLines)
